@@ -194,6 +194,7 @@ func rewriteFile(pkg *packages.Package, f *ast.File, rel string, next *int, res 
 		return true
 	})
 
+	hasGo := false
 	osStillUsed := false
 	timeStillUsed := false
 	osImported, timeImported := false, false
@@ -217,8 +218,6 @@ func rewriteFile(pkg *packages.Package, f *ast.File, rel string, next *int, res 
 				}
 				changed = true
 			}
-		case *ast.GoStmt:
-			warn(n, "go statement (scheduling not owned by the simulator)")
 		case *ast.SelectorExpr:
 			obj := info.Uses[n.Sel]
 			if obj == nil || obj.Pkg() == nil {
@@ -277,13 +276,34 @@ func rewriteFile(pkg *packages.Package, f *ast.File, rel string, next *int, res 
 			}
 		}
 		return true
-	}, nil)
+	}, func(c *astutil.Cursor) bool {
+		switch n := c.Node().(type) {
+		case *ast.GoStmt:
+			// R5: go f(x) → verifsim.Go(SITE, func() { f(x) })  (arguments are evaluated when
+			// the function runs, not at the go statement — documented deviation)
+			id := newSite("go", n, types.ExprString(n.Call.Fun))
+			c.Replace(&ast.ExprStmt{X: &ast.CallExpr{
+				Fun: sel(RuntimeImport, "Go"),
+				Args: []ast.Expr{
+					&ast.BasicLit{Kind: token.INT, Value: fmt.Sprint(id)},
+					&ast.FuncLit{Type: &ast.FuncType{Params: &ast.FieldList{}}, Body: &ast.BlockStmt{List: []ast.Stmt{&ast.ExprStmt{X: n.Call}}}},
+				},
+			}})
+			changed = true
+			hasGo = true
+		}
+		return true
+	})
 
 	if yields {
 		if insertYields(f, next, res, rel, fset) {
 			changed = true
 		}
 	}
+	if insertJoins(f, info) {
+		changed = true
+	}
+	_ = hasGo
 
 	if changed {
 		astutil.AddImport(fset, f, RuntimeImport)
@@ -332,6 +352,97 @@ func insertYields(f *ast.File, next *int, res *Result, rel string, fset *token.F
 			if _, isLabel := s.(*ast.LabeledStmt); !isLabel {
 				out = append(out, yield(s))
 				changed = true
+			}
+			out = append(out, s)
+		}
+		return out
+	}
+	ast.Inspect(f, func(n ast.Node) bool {
+		switch b := n.(type) {
+		case *ast.BlockStmt:
+			b.List = doList(b.List)
+		case *ast.CaseClause:
+			b.Body = doList(b.Body)
+		case *ast.CommClause:
+			b.Body = doList(b.Body)
+		}
+		return true
+	})
+	return changed
+}
+
+// needsJoin: does the statement (outside nested function literals) wait for goroutines —
+// WaitGroup/errgroup Wait, a channel receive, a range over a channel, or a select?
+func needsJoin(s ast.Stmt, info *types.Info) bool {
+	found := false
+	ast.Inspect(s, func(n ast.Node) bool {
+		if found {
+			return false
+		}
+		switch x := n.(type) {
+		case *ast.FuncLit:
+			return false
+		case *ast.BlockStmt:
+			// nested blocks are handled on their own statement lists
+			if ast.Node(x) != ast.Node(s) {
+				return false
+			}
+		case *ast.SelectStmt:
+			found = true
+		case *ast.UnaryExpr:
+			if x.Op == token.ARROW {
+				found = true
+			}
+		case *ast.RangeStmt:
+			if tv, ok := info.Types[x.X]; ok && tv.Type != nil {
+				if _, isChan := tv.Type.Underlying().(*types.Chan); isChan {
+					found = true
+				}
+			}
+			return false
+		case *ast.CallExpr:
+			if se, ok := x.Fun.(*ast.SelectorExpr); ok {
+				if fn, ok := info.Uses[se.Sel].(*types.Func); ok {
+					switch fn.FullName() {
+					case "(*sync.WaitGroup).Wait", "(*golang.org/x/sync/errgroup.Group).Wait":
+						found = true
+					}
+				}
+			}
+		}
+		return true
+	})
+	return found
+}
+
+// insertJoins puts verifsim.Join() before every statement that may wait for goroutines.
+func insertJoins(f *ast.File, info *types.Info) bool {
+	changed := false
+	join := func() ast.Stmt {
+		return &ast.ExprStmt{X: &ast.CallExpr{Fun: sel(RuntimeImport, "Join")}}
+	}
+	doList := func(list []ast.Stmt) []ast.Stmt {
+		var out []ast.Stmt
+		for _, s := range list {
+			switch s.(type) {
+			case *ast.IfStmt, *ast.ForStmt, *ast.SwitchStmt, *ast.TypeSwitchStmt, *ast.BlockStmt, *ast.LabeledStmt:
+				// compound statements: only their header expressions count here
+				hdr := false
+				switch x := s.(type) {
+				case *ast.IfStmt:
+					hdr = (x.Init != nil && needsJoin(x.Init, info)) || needsJoin(&ast.ExprStmt{X: x.Cond}, info)
+				case *ast.ForStmt:
+					hdr = x.Init != nil && needsJoin(x.Init, info)
+				}
+				if hdr {
+					out = append(out, join())
+					changed = true
+				}
+			default:
+				if needsJoin(s, info) {
+					out = append(out, join())
+					changed = true
+				}
 			}
 			out = append(out, s)
 		}
